@@ -399,8 +399,19 @@ Lemma handle_rmdir_AF s h n : AF s (fst (handle_rmdir s h n)).
 Proof. unfold handle_rmdir. handlerA. Qed.
 Lemma handle_rename_AF s h1 n1 h2 n2 : AF s (fst (handle_rename s h1 n1 h2 n2)).
 Proof. unfold handle_rename. handlerA. Qed.
+Lemma mnt_prefix_check_AF fuel : forall s pre, AF s (fst (mnt_prefix_check s pre fuel)).
+Proof.
+  induction fuel as [|k IH]; intros s pre; cbn [mnt_prefix_check]; [destruct pre; apply AF_refl|].
+  destruct pre as [|c r]; [apply AF_refl|]. unfold do_lstat.
+  destruct (be_stat (fs s) (c :: r) false) as [fi|e]; [destruct (kind_eqb (fi_kind fi) KLink)|]; cbn [fst];
+    first [ apply AF_logc | eapply AF_trans; [apply AF_logc|apply IH] ].
+Qed.
 Lemma handle_mnt_AF s p : AF s (fst (handle_mnt s p)).
-Proof. unfold handle_mnt. handlerA. Qed.
+Proof.
+  unfold handle_mnt. cbv zeta. SrvPaths.des;
+  repeat match goal with E : mnt_prefix_check ?s ?pre ?f = (_, _) |- _ => afact E (mnt_prefix_check_AF f s pre); revert E end;
+  intros; collectA3; chainA3.
+Qed.
 
 (* ---------- directory listings ---------- *)
 (* what AbsfsNFS.ReadDir returns: children of d, each with the fileid of its own path *)
@@ -576,7 +587,7 @@ Lemma fs_node_upd s h f : fs (node_upd s h f) = fs s. Proof. apply node_upd_ro. 
 Lemma fs_lift_unit s c r : fs (fst (lift_unit s c r)) = fst r. Proof. reflexivity. Qed.
 Lemma fs_invalidate_for_new s d p : fs (invalidate_for_new s d p) = fs s.
 Proof. unfold invalidate_for_new. rewrite fs_dc_invalidate. reflexivity. Qed.
-#[local] Hint Rewrite fs_logc fs_with_fs fs_with_ac fs_with_dc fs_with_nodes fs_with_hm fs_with_conf fs_with_now fs_clear_log
+#[export] Hint Rewrite fs_logc fs_with_fs fs_with_ac fs_with_dc fs_with_nodes fs_with_hm fs_with_conf fs_with_now fs_clear_log
   fs_ac_put fs_ac_put_negative fs_ac_invalidate fs_ac_invalidate_tree fs_ac_invalidate_neg fs_dc_put fs_dc_invalidate
   fs_dc_invalidate_tree fs_node_set fs_node_upd fs_lift_unit fs_invalidate_for_new : fsdb.
 
@@ -993,4 +1004,293 @@ Lemma KP_lstat_ok f f' q fi : KP f f' -> be_stat f q false = Ok fi ->
 Proof.
   intros [_ K] E. specialize (K q false). unfold stat_kind in K. rewrite E in K.
   destruct (be_stat f' q false) as [fi'|e]; [|discriminate]. exists fi'. split; [reflexivity|congruence].
+Qed.
+
+(* ====================================================================================================== *)
+(* 7. one request; histories                                                                              *)
+(* ====================================================================================================== *)
+Lemma garbage_attrs s r o : garbage_reply s r = Some o -> Forall (fun x => x = None) (ob_attrs o).
+Proof.
+  destruct r; cbn [garbage_reply]; try discriminate; SrvPaths.des; try discriminate; intros [= <-]; cbn; repeat constructor.
+Qed.
+Lemma last_all_none (l : list (option fattr)) : Forall (fun x => x = None) l -> last l None = None.
+Proof. induction 1 as [|x l -> _ IH]; [reflexivity|]. destruct l; [reflexivity|exact IH]. Qed.
+Lemma nth_all_none (l : list (option fattr)) k : Forall (fun x => x = None) l -> nth k l None = None.
+Proof. intros H. revert k. induction H as [|x l -> _ IH]; intros [|k]; cbn; auto. Qed.
+
+(* the procedures whose reply carries exactly the attributes of the object the handle names *)
+Definition family_req (r : req) : option N :=
+  match r with
+  | RGetattr h | RAccess h _ | RReadlink h | RRead h _ _ | RFsstat h | RFsinfo h | RPathconf h | RCommit h _ _
+  | RReaddir h _ _ | RReaddirplus h _ _ _ => Some h
+  | _ => None
+  end.
+Lemma step_family s c r h p n0 : family_req r = Some h -> lookup_node s h = Some (p, n0) ->
+  fs (fst (step s c r)) = fs s /\ Forall (opt_ok (fs s) p) (ob_attrs (snd (step s c r))).
+Proof.
+  intros Hr L. change (GF (fs (clear_log s)) p (step s c r)). unfold step.
+  assert (L' : lookup_node (clear_log s) h = Some (p, n0)) by exact L.
+  set (s0 := clear_log s) in *. clearbody s0.
+  destruct r; try discriminate; injection Hr as ->; cbn [garbage_reply];
+    first [ eapply handle_getattr_GF | eapply handle_access_GF | eapply handle_readlink_GF | eapply handle_read_GF
+          | eapply handle_fsx_GF | eapply handle_commit_GF | eapply handle_readdir_GF
+          | eapply (fun L => proj1 (handle_readdirplus_blocks _ _ _ _ _ _ L)) ]; exact L'.
+Qed.
+Lemma step_lookup_dir s c h n p n0 : lookup_node s h = Some (p, n0) ->
+  fs (fst (step s c (RLookup h n))) = fs s /\ opt_ok (fs s) p (last (ob_attrs (snd (step s c (RLookup h n)))) None).
+Proof.
+  intros L. change (GL (fs (clear_log s)) p (step s c (RLookup h n))). unfold step. cbn [garbage_reply].
+  destruct (str_ok n); [apply handle_lookup_GL with n0; exact L|]. split; [reflexivity|apply opt_ok_none].
+Qed.
+Lemma step_readdirplus_entries s c h ck dc_ mc d da : lookup_node s h = Some (d, da) -> AcFid s ->
+  forall de, In de (ob_entries (snd (step s c (RReaddirplus h ck dc_ mc)))) ->
+     exists a, de_attr de = sf a /\ de_fileid de = na_fileid a /\ na_fileid a = fileid_of (d ++ [de_name de]) /\
+       ((exists fi, be_stat (fs s) (d ++ [de_name de]) false = Ok fi) -> backend_block (fs s) (d ++ [de_name de]) a).
+Proof. intros L A. exact (proj2 (handle_readdirplus_blocks (clear_log s) h ck mc d da L) A). Qed.
+Lemma step_readdir_entries s c h ck cnt d da : lookup_node s h = Some (d, da) -> AcFid s ->
+  forall de, In de (ob_entries (snd (step s c (RReaddir h ck cnt)))) ->
+  de_fileid de = fileid_of (d ++ [de_name de]) /\ de_attr de = None.
+Proof. intros L A. exact (handle_readdir_fileids (clear_log s) h ck cnt d da L A). Qed.
+
+(* post-op attributes *)
+Definition post1_req (r : req) : option N :=
+  match r with RSetattr h _ _ | RWrite h _ _ _ _ | RRemove h _ | RRmdir h _ => Some h | _ => None end.
+Definition create_req (r : req) : option (N * name) :=
+  match r with RCreate h n _ _ | RMkdir h n _ | RSymlink h n _ _ => Some (h, n) | _ => None end.
+
+Lemma step_post1 s c r h d n0 : post1_req r = Some h -> lookup_node s h = Some (d, n0) ->
+  Forall (post_ok (fs s) d (fst (step s c r))) (ob_attrs (snd (step s c r))).
+Proof.
+  intros Hr L. change (PO1 (fs (clear_log s)) d (step s c r)). unfold step.
+  assert (L' : lookup_node (clear_log s) h = Some (d, n0)) by exact L.
+  set (s0 := clear_log s) in *. clearbody s0.
+  destruct (garbage_reply s0 r) as [o|] eqn:G.
+  - apply garbage_attrs in G. unfold PO1. cbn [fst snd]. eapply Forall_impl; [|exact G]. intros x ->. apply post_ok_none.
+  - destruct r; try discriminate; injection Hr as ->;
+      first [ eapply handle_setattr_PO | eapply handle_write_PO | eapply handle_remove_PO | eapply handle_rmdir_PO ]; exact L'.
+Qed.
+Lemma step_post_dir s c r h n d n0 : create_req r = Some (h, n) -> lookup_node s h = Some (d, n0) ->
+  post_ok (fs s) d (fst (step s c r)) (last (ob_attrs (snd (step s c r))) None).
+Proof.
+  intros Hr L. change (PO (fs (clear_log s)) d (step s c r)). unfold step.
+  assert (L' : lookup_node (clear_log s) h = Some (d, n0)) by exact L.
+  set (s0 := clear_log s) in *. clearbody s0.
+  destruct (garbage_reply s0 r) as [o|] eqn:G.
+  - apply garbage_attrs in G. unfold PO. cbn [fst snd]. rewrite (last_all_none _ G). apply post_ok_none.
+  - destruct r; try discriminate; injection Hr as -> ->;
+      first [ eapply handle_create_PO | eapply handle_mkdir_PO | eapply handle_symlink_PO ]; exact L'.
+Qed.
+Lemma step_post_rename s c h1 n1 h2 n2 d1 a1 d2 a2 :
+  lookup_node s h1 = Some (d1, a1) -> lookup_node s h2 = Some (d2, a2) ->
+  let so := step s c (RRename h1 n1 h2 n2) in
+  post_ok (fs s) d1 (fst so) (nth 0 (ob_attrs (snd so)) None) /\ post_ok (fs s) d2 (fst so) (nth 1 (ob_attrs (snd so)) None).
+Proof.
+  intros L1 L2. cbv zeta. change (PO2 (fs (clear_log s)) d1 d2 (step s c (RRename h1 n1 h2 n2))). unfold step.
+  destruct (garbage_reply (clear_log s) (RRename h1 n1 h2 n2)) as [o|] eqn:G.
+  - apply garbage_attrs in G. unfold PO2. cbn [fst snd]. rewrite !(nth_all_none _ _ G). split; apply post_ok_none.
+  - eapply handle_rename_PO2; [exact L1|exact L2].
+Qed.
+(* the object block of a successful LOOKUP / CREATE / MKDIR / SYMLINK *)
+Lemma step_child_fid s c r h n d n0 :
+  (r = RLookup h n \/ create_req r = Some (h, n)) -> lookup_node s h = Some (d, n0) -> AcFid s ->
+  match ob_attrs (snd (step s c r)) with [y; _] => fid_is (d ++ [n]) y | _ => True end.
+Proof.
+  intros Hr L A. change (child_fid (d ++ [n]) (step s c r)). unfold step.
+  assert (L' : lookup_node (clear_log s) h = Some (d, n0)) by exact L.
+  assert (A' : AcFid (clear_log s)) by exact A.
+  set (s0 := clear_log s) in *. clearbody s0.
+  destruct (garbage_reply s0 r) as [o|] eqn:G.
+  - destruct Hr as [->|Hr]; [|destruct r; try discriminate; injection Hr as -> ->];
+      cbn [garbage_reply] in G; revert G; SrvPaths.des; try discriminate; intros [= <-]; exact I.
+  - destruct Hr as [->|Hr]; [eapply handle_lookup_CF; eassumption|].
+    destruct r; try discriminate; injection Hr as -> ->;
+      first [ eapply handle_create_CF | eapply handle_mkdir_CF | eapply handle_symlink_CF ]; eassumption.
+Qed.
+
+(* ---------- every block of every reply carries the fileid of the path it describes ---------- *)
+Definition fileids_ok (s : srv) (r : req) (o : obs) : Prop :=
+  match r with
+  | RGetattr h | RAccess h _ | RReadlink h | RRead h _ _ | RFsstat h | RFsinfo h | RPathconf h | RCommit h _ _
+  | RSetattr h _ _ | RWrite h _ _ _ _ | RRemove h _ | RRmdir h _ =>
+      forall p n0, lookup_node s h = Some (p, n0) -> Forall (fid_is p) (ob_attrs o)
+  | RReaddir h _ _ | RReaddirplus h _ _ _ =>
+      forall p n0, lookup_node s h = Some (p, n0) ->
+        Forall (fid_is p) (ob_attrs o) /\
+        forall de, In de (ob_entries o) ->
+          de_fileid de = fileid_of (p ++ [de_name de]) /\ fid_is (p ++ [de_name de]) (de_attr de)
+  | RLookup h n | RCreate h n _ _ | RMkdir h n _ | RSymlink h n _ _ =>
+      forall p n0, lookup_node s h = Some (p, n0) ->
+        fid_is p (last (ob_attrs o) None) /\ match ob_attrs o with [y; _] => fid_is (p ++ [n]) y | _ => True end
+  | RRename h1 _ h2 _ =>
+      forall d1 a1 d2 a2, lookup_node s h1 = Some (d1, a1) -> lookup_node s h2 = Some (d2, a2) ->
+        fid_is d1 (nth 0 (ob_attrs o) None) /\ fid_is d2 (nth 1 (ob_attrs o) None)
+  | RNull | RMknod _ _ | RLink _ _ _ | RMnt _ | RSetRO _ | RSetMaxFile _ | RSetTsize _ =>
+      forall b, ~ In (Some b) (ob_attrs o)
+  end.
+
+Lemma opt_ok_fid_is f p x : opt_ok f p x -> fid_is p x.
+Proof. intros H b E. eapply opt_ok_fid; eassumption. Qed.
+Lemma post_ok_fid_is f0 d s' x : post_ok f0 d s' x -> fid_is d x.
+Proof. intros H b E. eapply post_ok_fid; eassumption. Qed.
+
+Lemma step_fileids s c r : AcFid s -> fileids_ok s r (snd (step s c r)).
+Proof.
+  intros A.
+  assert (FAM : forall h p n0, family_req r = Some h -> lookup_node s h = Some (p, n0) ->
+                 Forall (fid_is p) (ob_attrs (snd (step s c r)))).
+  { intros h p n0 Hr L. destruct (step_family s c r h p n0 Hr L) as [_ H].
+    eapply Forall_impl; [|exact H]. intros x. apply opt_ok_fid_is. }
+  assert (P1 : forall h p n0, post1_req r = Some h -> lookup_node s h = Some (p, n0) ->
+                 Forall (fid_is p) (ob_attrs (snd (step s c r)))).
+  { intros h p n0 Hr L. pose proof (step_post1 s c r h p n0 Hr L) as H.
+    eapply Forall_impl; [|exact H]. intros x. apply post_ok_fid_is. }
+  assert (CR : forall h n p n0, create_req r = Some (h, n) -> lookup_node s h = Some (p, n0) ->
+                 fid_is p (last (ob_attrs (snd (step s c r))) None) /\
+                 match ob_attrs (snd (step s c r)) with [y; _] => fid_is (p ++ [n]) y | _ => True end).
+  { intros h n p n0 Hr L. split; [eapply post_ok_fid_is, step_post_dir; eassumption|].
+    eapply step_child_fid; [right; exact Hr|exact L|exact A]. }
+  destruct r; cbn [fileids_ok]; try (intros p n0 L; first [ eapply FAM; solve [reflexivity | exact L] | eapply P1; solve [reflexivity | exact L]
+                               | eapply CR; solve [reflexivity | exact L] ]).
+  - (* RNull *) cbn. intros b [].
+  - (* RLookup *) intros p n0 L. split.
+    + destruct (step_lookup_dir s c h n p n0 L) as [_ H]. eapply opt_ok_fid_is; exact H.
+    + eapply step_child_fid; [left; reflexivity|exact L|exact A].
+  - (* RMknod *) cbn. intros b [H|[]]; discriminate.
+  - (* RRename *) intros d1 a1 d2 a2 L1 L2. destruct (step_post_rename s c h1 n1 h2 n2 d1 a1 d2 a2 L1 L2) as [H1 H2].
+    split; eapply post_ok_fid_is; eassumption.
+  - (* RLink *) cbn. intros b [H|[H|[]]]; discriminate.
+  - (* RReaddir *) intros p n0 L. split; [eapply FAM; [reflexivity|exact L]|].
+    intros de Hde. destruct (step_readdir_entries s c h cookie count p n0 L A de Hde) as [H1 H2].
+    split; [exact H1|]. rewrite H2. intros b E; discriminate.
+  - (* RReaddirplus *) intros p n0 L. split; [eapply FAM; [reflexivity|exact L]|].
+    intros de Hde. destruct (step_readdirplus_entries s c h cookie dircount maxcount p n0 L A de Hde) as (a & H1 & H2 & H3 & _).
+    split; [congruence|]. rewrite H1. apply fid_is_sf. exact H3.
+  - (* RMnt *) unfold step. destruct (garbage_reply (clear_log s) (RMnt p)) as [o|] eqn:G.
+    + apply garbage_attrs in G. cbn [snd]. intros b Hb. apply (proj1 (Forall_forall _ _) G) in Hb. discriminate.
+    + unfold handle_mnt. cbv zeta. SrvPaths.des; cbn; intros b' [].
+  - cbn. intros b' [].
+  - cbn. intros b' [].
+  - cbn. intros b' [].
+Qed.
+
+(* at every point of every history started from a fresh server *)
+Lemma history_fileids f c mx t l x :
+  let s := hfinal (srv_init_fs f c mx t) l in fileids_ok s (hs_req x) (snd (hrun1 s x)).
+Proof.
+  cbv zeta. set (s := hfinal _ l). assert (A : AcFid s) by apply reachable_AcFid.
+  exact (step_fileids (with_now s (now s + hs_adv x)) (hs_cred x) (hs_req x) A).
+Qed.
+
+(* ---------- SETATTR ---------- *)
+Lemma step_setattr_preserves s c h sa g :
+  let s' := fst (step s c (RSetattr h sa g)) in
+  (forall q, option_map o_kind (fs_get (fs s') q) = option_map o_kind (fs_get (fs s) q)) /\
+  (forall q fl, stat_kind (fs s') q fl = stat_kind (fs s) q fl) /\
+  hm s' = hm s /\
+  (forall h' p a, lookup_node s h' = Some (p, a) ->
+     exists a', lookup_node s' h' = Some (p, a') /\ na_kind a' = na_kind a /\ na_fileid a' = na_fileid a) /\
+  (forall q a a', backend_block (fs s) q a -> backend_block (fs s') q a' ->
+     fa_type (fattr_of a') = fa_type (fattr_of a) /\ na_fileid a' = na_fileid a) /\
+  (forall q fi, be_stat (fs s) q false = Ok fi -> exists fi', be_stat (fs s') q false = Ok fi' /\ fi_kind fi' = fi_kind fi).
+Proof.
+  cbv zeta. unfold step. cbn [garbage_reply].
+  pose proof (handle_setattr_NK (clear_log s) c h sa g) as K. set (s' := fst (handle_setattr (clear_log s) c h sa g)) in *.
+  assert (K' : NK s s') by exact K. clear K. destruct K' as ((K1 & K2) & H & N_).
+  split; [exact K1|split; [exact K2|split; [exact H|split; [|split]]]].
+  - intros h' p a L. eapply NK_lookup_node; [|exact L]. split; [split; assumption|split; assumption].
+  - intros q a a'. apply KP_blocks. split; assumption.
+  - intros q fi. apply KP_lstat_ok. split; assumption.
+Qed.
+
+Lemma type_from_kind_num a : fa_type (fattr_of a) = match na_kind a with KFile => 1 | KDir => 2 | KLink => 5 end.
+Proof. rewrite type_from_kind. destruct (na_kind a); reflexivity. Qed.
+Lemma block_symlink_num f p a fi : backend_block f p a -> be_stat f p false = Ok fi -> fi_kind fi = KLink ->
+  fa_type (fattr_of a) = 5 /\ na_kind a = KLink.
+Proof. intros B E K. destruct (block_symlink f p a fi B E K) as [H1 H2]. split; [rewrite H1; reflexivity|exact H2]. Qed.
+Lemma refresh_all_blocks s l : (forall e, In e l -> na_fileid (snd e) = fileid_of (fst e)) ->
+  fs (fst (refresh_all s l)) = fs s /\
+  forall e', In e' (snd (refresh_all s l)) ->
+    (exists e, In e l /\ fst e' = fst e /\ na_fileid (snd e') = na_fileid (snd e)) /\
+    ((exists fi, be_stat (fs s) (fst e') false = Ok fi) -> backend_block (fs s) (fst e') (snd e')).
+Proof.
+  intros H. destruct (refresh_all_spec l s) as (F & Q & _). split; [exact F|].
+  intros e' He'. destruct (Forall2_In_r _ _ _ Q e' He') as (e & Hin & Rp & Rf & Rok & _).
+  split; [exists e; auto|]. intros (fi & Hfi). rewrite Rp in *. rewrite (Rok fi Hfi).
+  exists fi. repeat split; auto. cbn. apply H. exact Hin.
+Qed.
+
+(* ====================================================================================================== *)
+(* 8. executable witnesses                                                                                *)
+(* ====================================================================================================== *)
+(* "/" with a regular file f (3 bytes), a directory d, a symlink l -> "f", a dangling symlink x -> "nope" *)
+Definition c04_file : obj :=
+  {| o_kind := KFile; o_perm := 420; o_uid := 0; o_gid := 0; o_mtime := 7; o_size := 3; o_data := [(0, 104); (1, 105); (2, 33)];
+     o_dsize := 3; o_ddata := [(0, 104); (1, 105); (2, 33)]; o_target := [] |}.
+Definition c04_fs : fsmap :=
+  fs_set (fs_set (fs_set (fs_set fs_init [[102]] c04_file) [[100]] (mk_dir 493 7)) [[108]] (mk_link [102] 7))
+         [[120]] (mk_link [110; 111; 112; 101] 7).
+Definition c04_s0 : srv := srv_init_fs c04_fs ex_cfg 0 100.
+Definition c04_hist (l : list req) : list hstep := map (fun r => {| hs_adv := 1; hs_cred := ex_cred; hs_req := r |}) l.
+(* handles: 1 = /, 2 = /f, 3 = /d, 4 = /l, 5 = /x *)
+Definition c04_s1 : srv :=
+  hfinal c04_s0 (c04_hist [RMnt [47]; RLookup 1 [102]; RLookup 1 [100]; RLookup 1 [108]; RLookup 1 [120]]).
+(* (type, perm, size, fileid) of every block of a reply *)
+Definition c04_proj (x : option fattr) : option (N * N * N * N) :=
+  match x with Some b => Some (fa_type b, fa_perm b, fa_size b, fa_fileid b) | None => None end.
+Definition c04_blocks (s : srv) (r : req) : list (option (N * N * N * N)) := map c04_proj (ob_attrs (snd (step s ex_cred r))).
+Definition c04_entries (s : srv) (r : req) : list (name * N * option (N * N * N * N)) :=
+  map (fun de => (de_name de, de_fileid de, c04_proj (de_attr de))) (ob_entries (snd (step s ex_cred r))).
+Definition c04_sattr (m : N) : sattr :=
+  {| s_mode := Some m; s_uid := None; s_gid := None; s_size := None; s_atime := 0; s_atime_v := 0; s_mtime := 0; s_mtime_v := 0 |}.
+
+(* ---------- the full-strength statement, and why the cached LOOKUP blocks are not part of this file ---------- *)
+(* every block of a reply, with the path it describes (the handle's path in the pre-state; children by name) *)
+Definition hpath (s : srv) (h : N) : list path := match lookup_node s h with Some (p, _) => [p] | None => [] end.
+Definition attributed (s : srv) (r : req) (o : obs) : list (path * option fattr) :=
+  let at_ k := nth k (ob_attrs o) None in
+  match r with
+  | RGetattr h | RAccess h _ | RReadlink h | RRead h _ _ | RFsstat h | RFsinfo h | RPathconf h | RCommit h _ _
+  | RSetattr h _ _ | RWrite h _ _ _ _ | RRemove h _ | RRmdir h _ | RReaddir h _ _ => map (fun p => (p, at_ 0%nat)) (hpath s h)
+  | RLookup h n | RCreate h n _ _ | RMkdir h n _ | RSymlink h n _ _ =>
+      flat_map (fun p => match ob_attrs o with [y; x] => [(p ++ [n], y); (p, x)] | [x] => [(p, x)] | _ => [] end) (hpath s h)
+  | RRename h1 _ h2 _ => map (fun p => (p, at_ 0%nat)) (hpath s h1) ++ map (fun p => (p, at_ 1%nat)) (hpath s h2)
+  | RReaddirplus h _ _ _ =>
+      flat_map (fun p => (p, at_ 0%nat) :: map (fun de => (p ++ [de_name de], de_attr de)) (ob_entries o)) (hpath s h)
+  | _ => []
+  end.
+(* full strength: in every history, every block agrees with the Lstat of its path in the tree the reply leaves behind *)
+Definition full_statement : Prop :=
+  forall f c mx t l x, let s := hfinal (srv_init_fs f c mx t) l in let so := hrun1 s x in
+  forall p b, In (p, Some b) (attributed s (hs_req x) (snd so)) -> fattr_ok (fs (fst so)) p b.
+
+(* the model (like the Go code it mirrors) refutes it for a block served from the attribute cache: /l -> "d" is a
+   symlink to a directory, MNT "/d/s" and MNT "/l/s" give two handles on the same directory under two paths, the
+   file a is looked up through both, written (5 bytes) through the first; LOOKUP through the second then answers
+   from the cache entry of "/l/s/a": size 3, while Lstat (and GETATTR on that very handle) say 5 *)
+Definition c04_alias_fs : fsmap :=
+  fs_set (fs_set (fs_set (fs_set fs_init [[100]] (mk_dir 493 7)) [[100]; [115]] (mk_dir 493 7)) [[100]; [115]; [97]] c04_file)
+         [[108]] (mk_link [100] 7).
+Definition c04_alias_hist : list hstep :=
+  c04_hist [RMnt [47; 100; 47; 115]; RMnt [47; 108; 47; 115]; RLookup 1 [97]; RLookup 2 [97]; RWrite 3 0 5 0 [1; 2; 3; 4; 5]].
+Lemma full_statement_refuted : ~ full_statement.
+Proof.
+  intros H.
+  pose proof (H c04_alias_fs ex_cfg 0%Z 100 c04_alias_hist {| hs_adv := 1; hs_cred := ex_cred; hs_req := RLookup 2 [97] |}
+                [[108]; [115]; [97]]) as HH.
+  vm_compute in HH. destruct (HH _ (or_introl eq_refl)) as (fi & E & _ & _ & S & _).
+  injection E as <-. discriminate S.
+Qed.
+
+Lemma backend_keeps_kind :
+  (forall f p m, KP f (fst (be_chmod f p m))) /\ (forall f p u g, KP f (fst (be_chown f p u g))) /\
+  (forall f p t, KP f (fst (be_chtimes f p t))) /\ (forall f p sz t, KP f (fst (be_truncate f p sz t))).
+Proof. repeat split; first [apply be_chmod_KP | apply be_chown_KP | apply be_chtimes_KP | apply be_truncate_KP]. Qed.
+Lemma step_AcFid s c r : AcFid s -> AcFid (fst (step s c r)).
+Proof. apply step_AF. Qed.
+
+(* as long as the directory still resolves after the operation, its post-op block is the post-state view *)
+Lemma post_ok_live f0 d s' x : post_ok f0 d s' x -> (exists fi, be_stat (fs s') d false = Ok fi) -> opt_ok (fs s') d x.
+Proof.
+  intros H (fi & E) b Hb. destruct (H b Hb) as (a & -> & [B|[(e & Ee) _]]); [apply backend_block_wire; exact B|].
+  rewrite E in Ee. discriminate.
 Qed.
